@@ -185,7 +185,19 @@ func C12Scenarios(tier string) []*h.Scenario {
 			}
 		}
 		names := initialNames(a.ASG.Name, 5)
-		s.Events = func(hh *h.Hist, slot int) []h.Event { return append(fixedNodeEvents(a, names), evDescInsDown()) }
+		other := specs["b"]
+		s.Events = func(hh *h.Hist, slot int) []h.Event {
+			ev := append(fixedNodeEvents(a, names), evDescInsDown())
+			// pods of a that mention b's label value only in a NotIn expression (they select a by node selector)
+			ev = append(ev, h.Event{Label: "burst(a, affinity NotIn b)", Apply: func(hh *h.Hist) {
+				for i := 0; i < 3; i++ {
+					o := affinityPod(other, "", 1500, true)
+					o.Selector = sel(a)
+					hh.W.AddPod(o)
+				}
+			}})
+			return ev
+		}
 		// non-fatal failures confined to group a: any call made while a is being processed
 		s.FaultOps = map[string]bool{sim.OpK8sGet: true, sim.OpK8sUpdate: true, sim.OpK8sDelete: true, sim.OpTerminate: true, sim.OpSetDesired: true, sim.OpListPods: true, sim.OpListNodes: true}
 		s.FaultFilter = func(hh *h.Hist, op, target string) bool { return hh.W.CurrentGroup() == "a" }
